@@ -127,6 +127,42 @@ def check_fresh(h, jd, where):
                 f"{err:.3g} (scaled coefficients, cond {cond:.3g})")
 
 
+def check_model_views(h, jd, probes, dirs):
+    """The Models-level views (fun, fun_grad, fun_hess, fun_hess_prod,
+    fun_curv and the cub / ceq variants) at FIXED probe points, after every
+    operation: they are the views of the models as they are NOW (the
+    quadratic-level views are compared with exact arithmetic elsewhere)."""
+    m = h.models
+    itp = h.itp
+
+    def same(a, b, what):
+        a = np.asarray(a, dtype=float)
+        b = np.asarray(b, dtype=float)
+        jd.count("model_view_probes")
+        bad = a.shape != b.shape or not np.all(
+            (a == b) | (np.abs(a - b) <= 8 * EPS * np.maximum(np.abs(a),
+                                                              np.abs(b))))
+        if bad and len(jd.viols) < 3:
+            jd.viols.append(V("models_view_stale",
+                              f"Models.{what} differs from the view of the "
+                              f"current quadratic: {a.tolist()} vs "
+                              f"{b.tolist()}", mechanism="models_view"))
+    for x, v in zip(probes, dirs):
+        same(m.fun(x), m._fun(x, itp), "fun")
+        same(m.fun_grad(x), m._fun.grad(x, itp), "fun_grad")
+        same(m.fun_hess(), m._fun.hess(itp), "fun_hess")
+        same(m.fun_hess_prod(v), m._fun.hess_prod(v, itp), "fun_hess_prod")
+        same(m.fun_curv(v), m._fun.curv(v, itp), "fun_curv")
+        if len(m._cub):
+            same(m.cub(x), [q(x, itp) for q in m._cub], "cub")
+            same(m.cub_grad(x), [q.grad(x, itp) for q in m._cub], "cub_grad")
+            same(m.cub_curv(v), [q.curv(v, itp) for q in m._cub], "cub_curv")
+        if len(m._ceq):
+            same(m.ceq(x), [q(x, itp) for q in m._ceq], "ceq")
+            same(m.ceq_grad(x), [q.grad(x, itp) for q in m._ceq], "ceq_grad")
+            same(m.ceq_curv(v), [q.curv(v, itp) for q in m._ceq], "ceq_curv")
+
+
 def check_views(h, jd, rng):
     itp = h.itp
     n = itp.n
@@ -316,10 +352,15 @@ def run_case(case):
         nn = h.npt + n + 1
         check_fresh(h, jd, "initial build")
         check_views(h, jd, rng)
+        fixed_probes = [itp.x_base + rng.standard_normal(n) * h.radius
+                        for _ in range(2)]
+        fixed_dirs = [rng.standard_normal(n) * h.radius for _ in range(2)]
+        check_model_views(h, jd, fixed_probes, fixed_dirs)
         nonzero_h = False
         for t in range(int(rng.integers(3, 11))):
             if jd.viols:
                 break
+            check_model_views(h, jd, fixed_probes, fixed_dirs)
             u = rng.random()
             if u < 0.12:
                 # base shift: the function must not change at probes
@@ -353,7 +394,12 @@ def run_case(case):
                                                        "far"])))
             how, k = h.choose_index(x_new)
             fv, cub, ceq = h.pb(x_new)
-            if rng.random() < 0.12:
+            if rng.random() < 0.06:
+                # a value at the extreme barrier (what an undefined objective
+                # value becomes): the update still interpolates it
+                fv = 2.0 ** 100
+                kind = kind + "+barrier"
+            elif rng.random() < 0.12:
                 # the new values equal the models' predictions exactly: the
                 # correction is zero, the function must not change (only the
                 # representation: implicit -> explicit curvature of point k)
